@@ -1442,7 +1442,9 @@ def run_C19(tier, seed, res, drv, replay=None):
             if t < first:
                 prog.append(("append", 0, rng.choice([[N], [Q(1)], [L()], [N, L(N)], []])))
             else:
-                k = rng.randint(1, 2)
+                k = min(rng.randint(1, 2), 5 - nxt)      # (jobs 5 and 6 are the ones given as requirements)
+                if k <= 0:
+                    break
                 prog.append(("append", 0, [J(nxt + x) for x in range(k)]))
                 nxt += k
         c19_case(prog, 8, 3, res, batch, "pending-fill")
